@@ -402,7 +402,7 @@ class C16(Check):
                     pass
         finally:
             shutil.rmtree(tmp, ignore_errors=True)
-        mops = [['reader', op[1].replace('-ext', ''), op[2], 'path' if op[3] in ('path', 'fs') else op[3], op[4]] if op[0] == 'reader' else op for op in ops]
+        mops = [['reader', op[1], op[2], 'path' if op[3] in ('path', 'fs') else op[3], op[4]] if op[0] == 'reader' else op for op in ops]
         model = drv.ask(sexp(['close-run'] + mops)).split(' ')
         # non-vacuity of the every-level completeness theorem: are its side conditions met by the graph this script builds?
         geom = drv.ask(sexp(['close-geom'] + mops))
